@@ -19,7 +19,7 @@ LEVEL = "exploration"
 KAP = 0.4
 RULE = (
     "Hypothesis draws a profile family as functions of z (log-law + MOST psi, power law, log + offset wind; MOST kappa u* z/phi, "
-    "power-law, linear diffusivity; anisotropy factors 2^[-2,2]; any wind angle; optional linear turning with height), z0 relative "
+    "power-law, linear diffusivity; anisotropy factors 2^[-2,2], in half of the cases with a height-dependent ratio (Kx/Kz ~ z^±0.2..0.5, Ky = ay (Kz + offset)); any wind angle; optional linear turning with height), z0 relative "
     "to the column, z_m in [2,20] (column top 2 z_m), a vertical grid kind in {uniform, log-uniform, BLDFM-stretched}, a base "
     "layer count n (multiple of 4, <= 512) chosen so that the relative layer thickness delta = max dz_i/z_i meets a drawn target "
     "(<= 1 in three quarters of the cases, <= 4 otherwise), nx,ny in 4..8, a domain size relative to the column height, an output "
@@ -71,8 +71,11 @@ def make_profiles(c):
         U = lambda z: us / KAP * np.log(z / z0) + 0.5
         K = lambda z: KAP * us * z
     ang = lambda z: c["wdir"] + c["turn"] * z
+    # the horizontal diffusivities are not tied to Kz: Kx/Kz follows a weak power of height and Ky has an offset,
+    # so neither ratio is constant over the column (nothing in the equation says it is)
+    ex, koff, zm = c.get("kx_exp", 0.0), c.get("ky_off", 0.0), c["zm"]
     return (lambda z: U(z) * np.cos(ang(z)), lambda z: U(z) * np.sin(ang(z)),
-            lambda z: c["ax"] * K(z), lambda z: c["ay"] * K(z), K)
+            lambda z: c["ax"] * K(z) * (z / zm) ** ex, lambda z: c["ay"] * (K(z) + koff * K(zm)), K)
 
 
 def zgrid(kind, n, z0, ztop, zm):
@@ -109,6 +112,7 @@ def _case(draw):
         "turn": draw(st.sampled_from([0.0, 0.0, 0.01, -0.02])), "m": draw(gen.fl(0.1, 0.4)), "n": draw(gen.fl(0.5, 1.2)),
         "nx": draw(st.integers(4, 8)), "ny": draw(st.integers(4, 8)),
         "lvl_frac": draw(st.sampled_from([0.0, 0.25, 0.5, 1.0])),
+        "kx_exp": draw(st.sampled_from([0.0, 0.0, -0.5, -0.2, 0.2, 0.5])), "ky_off": draw(st.sampled_from([0.0, 0.0, 0.3, 1.0])),
     }
     c["xmax"] = float(f"{ztop * c['nx'] * draw(gen.logfl(0.5, 10.0)):.6g}")
     c["ymax"] = float(f"{ztop * c['ny'] * draw(gen.logfl(0.5, 10.0)):.6g}")
@@ -156,6 +160,7 @@ def check_case(c):
     dzc = np.diff(zc)
     delta = float(np.max(dzc / zc[:-1]))
     out.label("fam=" + c["fam"], "grid=" + gk, "delta<=1" if delta <= 1 else "delta>1", f"level={c['lvl_frac']}")
+    out.label("K-ratios-vary-with-height" if (c.get("kx_exp") or c.get("ky_off")) else "K-ratios-constant")
 
     # admitted modes on the coarse grid.  A component on the unpaired Nyquist column / row of an even grid is observed
     # through the real part of the field: its transfer function is  (H(k) + conj(H(k')))/2  with k' the wavenumber the
